@@ -302,6 +302,8 @@ struct Sim {
     pct_low: u32,
     started_ack: usize,
     scratch: Vec<Act>,
+    /// consecutive decisions in which only spinning threads could move (a lock none of them will get)
+    spin_streak: u32,
 }
 
 static SIM: Mutex<Option<Sim>> = Mutex::new(None);
@@ -413,6 +415,12 @@ impl Sim {
                     acts.push(Act { kind: 0, t, v: 0 });
                 }
             }
+        }
+        let only_spinners = non_spin == 0 && !acts.is_empty() && acts.iter().all(|a| a.kind == 0);
+        if only_spinners && acts.len() == (0..MAX_THREADS).filter(|&t| matches!(self.status[t], St::Spin)).count() {
+            self.spin_streak = self.spin_streak.saturating_add(1);
+        } else {
+            self.spin_streak = 0;
         }
         // 6. finish: the scenario thread may leave once the pool has drained
         for t in all {
@@ -669,6 +677,12 @@ pub fn blocked_point() -> bool {
         if sim.cfg.atomic_rate == 0 || !matches!(sim.status[me], St::Running) || sim.turn != me {
             return false;
         }
+        // nobody but spinning threads has been able to move for a long time: the lock they wait for will
+        // never be released (a deadlock of the code under test, e.g. a lock taken again by the thread
+        // that holds it).  Let the caller block for real: the per-run watchdog reports the run.
+        if sim.spin_streak > 20_000 {
+            return false;
+        }
         sim.stats.blocked_points += 1;
     }
     match yield_with(me, g, St::Spin) {
@@ -893,6 +907,7 @@ pub fn run_multi<R: Send, F: FnOnce() -> R + Send>(cfg: Config, fs: Vec<F>) -> (
         pct_low: 999,
         started_ack: 0,
         scratch: Vec::with_capacity(64),
+        spin_streak: 0,
     });
     ACTIVE.store(true, Ordering::SeqCst);
     let results = std::thread::scope(|s| {
